@@ -1,19 +1,696 @@
 package main
 
+// Mode C: goroutines, channels, select and WaitGroup with the SCHEDULE as solver variables.
+//
+// Every goroutine is executed (eagerly, at its `go` statement, on a snapshot of the spawner's heap) by the
+// ordinary predicated executor. Each channel operation, close, WaitGroup call, `go`, and each store to /
+// load from memory shared across goroutines becomes an EVENT with a guard (its path condition), a boolean
+// "fired" and an 8-bit timestamp. finalizeConc() emits the constraints that make (fired, timestamp, match)
+// assignments exactly the executions of the Go memory/channel model within the bounds:
+// program order, spawn order, rendezvous / FIFO buffering / capacity, close semantics, select, WaitGroup
+// counters, read-from for shared cells, uniqueness of timestamps. Queries: assertions reached by a thread
+// (safety), panics (send on closed, close of closed), deadlock/leak (a maximal schedule with a blocked
+// goroutine) and data races (two conflicting accesses adjacent in some execution).
+
 import (
+	"fmt"
+	"go/types"
+
 	"golang.org/x/tools/go/ssa"
 )
 
-// Mode C: goroutines, channels, select, WaitGroup with the schedule as solver variables.
-type ConcEnv struct{}
+const tsW = 8
 
-func (fr *Frame) concInstr(in ssa.Instruction)        { panic(unsupported("concurrency instruction")) }
-func (fr *Frame) recv(i *ssa.UnOp, x Value) Value     { panic(unsupported("channel receive")) }
-func (ex *Exec) chanLen(fr *Frame, c *VChan) Value    { panic(unsupported("len(chan)")) }
-func (ex *Exec) chanCap(fr *Frame, c *VChan) Value    { panic(unsupported("cap(chan)")) }
-func (ex *Exec) chanClose(fr *Frame, c *VChan, in ssa.Instruction) {
-	panic(unsupported("close(chan)"))
+type CThread struct {
+	ID       int
+	Parent   *CThread
+	Spawn    *CEvent
+	Events   []*CEvent
+	AllFired *Term // every event so far in this thread whose guard holds has fired
+	Snapshot map[*Object]bool
+	Name     string
 }
+
+type CEvent struct {
+	ID       int
+	Th       *CThread
+	Kind     string // send recv close spawn wgadd wgdone wgwait store load
+	G, F, T  *Term
+	Prev     *Term // AllFired of the thread when the event was created
+	Blocking bool
+	Ch       *VChan
+	Val      Value
+	Ok       *Term
+	CR       *Term // recv: "closed and drained" alternative
+	M        map[*CEvent]*Term // recv: match variable per candidate send
+	WG       string
+	N        *Term
+	Sel      int // select group (0 = none)
+	Cell     string
+	Pos      string
+}
+
+type VChanC struct {
+	Cap  *Term // BV64
+	Elem types.Type
+}
+
+type ConcEnv struct {
+	Threads []*CThread
+	Events  []*CEvent
+	Cur     *CThread
+	nsel    int
+	Stores  map[string][]*CEvent
+	Final   bool
+	Deadlock *Term
+	Race     *Term
+	Panics   []Obligation
+}
+
+func NewConcEnv(ts *TS) *ConcEnv {
+	c := &ConcEnv{Stores: map[string][]*CEvent{}}
+	main := &CThread{ID: 0, AllFired: ts.True, Name: "main"}
+	c.Threads = []*CThread{main}
+	c.Cur = main
+	return c
+}
+
+// concPrefix: the condition under which the current thread has got this far.
+func (ex *Exec) concPrefix() *Term {
+	if ex.Conc == nil || ex.Conc.Cur == nil {
+		return ex.ts.True
+	}
+	return ex.Conc.Cur.AllFired
+}
+
+func (ex *Exec) newEvent(fr *Frame, kind string, blocking bool, in ssa.Instruction) *CEvent {
+	c := ex.Conc
+	ts := ex.ts
+	e := &CEvent{ID: len(c.Events), Th: c.Cur, Kind: kind, G: fr.pc, Blocking: blocking, Prev: c.Cur.AllFired, Pos: ex.pos(in)}
+	e.F = ts.Var(fmt.Sprintf("fired.%s%d", kind, e.ID), 0)
+	e.T = ts.Var(fmt.Sprintf("time.%s%d", kind, e.ID), tsW)
+	c.Events = append(c.Events, e)
+	c.Cur.Events = append(c.Cur.Events, e)
+	if len(c.Events) > 200 {
+		panic(unsupported("more than 200 concurrency events"))
+	}
+	return e
+}
+
+// advance records that the thread continues past e only once e has fired.
+func (ex *Exec) advance(e *CEvent) {
+	ts := ex.ts
+	e.Th.AllFired = ts.And(e.Th.AllFired, ts.Implies(e.G, e.F))
+}
+
+func (ex *Exec) sameChan(a, b *VChan) *Term {
+	ts := ex.ts
+	var cs []*Term
+	for _, x := range a.Alts {
+		for _, y := range b.Alts {
+			if x.Obj == y.Obj {
+				cs = append(cs, ts.And(x.G, y.G))
+			}
+		}
+	}
+	return ts.Or(cs...)
+}
+
+func (ex *Exec) chanCapTerm(fr *Frame, c *VChan) *Term {
+	ts := ex.ts
+	r := ts.BV(0, 64)
+	for i := len(c.Alts) - 1; i >= 0; i-- {
+		r = ts.Ite(c.Alts[i].G, ex.chanCaps[c.Alts[i].Obj], r)
+	}
+	return r
+}
+
+func (fr *Frame) concInstr(in ssa.Instruction) {
+	ex := fr.ex
+	ts := ex.ts
+	if ex.Conc == nil {
+		panic(unsupported("concurrency instruction outside mode C"))
+	}
+	switch i := in.(type) {
+	case *ssa.MakeChan:
+		sz := fr.eval(i.Size).(*VBV).T
+		if sz.W != 64 {
+			sz = ts.Sext(sz, 64)
+		}
+		o := ex.newObj(nil, "chan")
+		fr.heap[o] = &VChanC{Cap: sz, Elem: i.Type().Underlying().(*types.Chan).Elem()}
+		ex.chanCaps[o] = sz
+		fr.panicIf(ts.Slt(sz, ts.BV(0, 64)), i, "makechan: size out of range")
+		fr.set(i, &VChan{[]ChanAlt{{ts.True, o}}})
+	case *ssa.Send:
+		ch := fr.eval(i.Chan).(*VChan)
+		e := ex.newEvent(fr, "send", true, i)
+		e.Ch = ch
+		e.Val = fr.eval(i.X)
+		ex.advance(e)
+	case *ssa.Go:
+		fr.goStmt(i)
+	case *ssa.Select:
+		fr.set(i, fr.selectStmt(i))
+	default:
+		panic(unsupported(fmt.Sprintf("concurrency instruction %T", in)))
+	}
+}
+
+// recvEvent creates a receive on ch (not yet advanced) and its result value.
+func (ex *Exec) recvEvent(fr *Frame, ch *VChan, elem types.Type, in ssa.Instruction) (*CEvent, Value) {
+	ts := ex.ts
+	c := ex.Conc
+	e := ex.newEvent(fr, "recv", true, in)
+	e.Ch = ch
+	e.M = map[*CEvent]*Term{}
+	e.CR = ts.Var(fmt.Sprintf("closedrecv%d", e.ID), 0)
+	var val Value = ex.zero(elem)
+	var oks []*Term
+	for _, s := range c.Events {
+		if s.Kind != "send" || s.Th == e.Th {
+			continue
+		}
+		same := ex.sameChan(s.Ch, ch)
+		if same.IsFalse() {
+			continue
+		}
+		m := ts.Var(fmt.Sprintf("match.s%d.r%d", s.ID, e.ID), 0)
+		e.M[s] = m
+		val = ex.merge(m, s.Val, val)
+		oks = append(oks, m)
+	}
+	e.Ok = ts.Or(oks...)
+	e.Val = val
+	return e, val
+}
+
+func (fr *Frame) recv(i *ssa.UnOp, x Value) Value {
+	ex := fr.ex
+	if ex.Conc == nil {
+		panic(unsupported("channel receive outside mode C"))
+	}
+	ch := x.(*VChan)
+	elem := i.X.Type().Underlying().(*types.Chan).Elem()
+	e, val := ex.recvEvent(fr, ch, elem, i)
+	ex.advance(e)
+	if i.CommaOk {
+		return &VTuple{[]Value{val, &VBV{e.Ok}}}
+	}
+	return val
+}
+
+func (fr *Frame) selectStmt(i *ssa.Select) Value {
+	ex := fr.ex
+	ts := ex.ts
+	c := ex.Conc
+	if !i.Blocking {
+		panic(unsupported("select with default"))
+	}
+	c.nsel++
+	grp := c.nsel
+	var evs []*CEvent
+	var vals []Value
+	for _, st := range i.States {
+		if st.Dir != types.RecvOnly {
+			panic(unsupported("select with a send case"))
+		}
+		ch := fr.eval(st.Chan).(*VChan)
+		elem := st.Chan.Type().Underlying().(*types.Chan).Elem()
+		e, v := ex.recvEvent(fr, ch, elem, i)
+		e.Sel = grp
+		evs = append(evs, e)
+		vals = append(vals, v)
+	}
+	// the thread continues when exactly one case has fired
+	var fs []*Term
+	for _, e := range evs {
+		fs = append(fs, e.F)
+	}
+	any := ts.Or(fs...)
+	th := c.Cur
+	th.AllFired = ts.And(th.AllFired, ts.Implies(fr.pc, any))
+	idx := ts.BV(0, 64)
+	ok := ts.False
+	for k := len(evs) - 1; k >= 0; k-- {
+		idx = ts.Ite(evs[k].F, ts.BV(uint64(k), 64), idx)
+		ok = ts.Ite(evs[k].F, evs[k].Ok, ok)
+	}
+	out := []Value{&VBV{idx}, &VBV{ok}}
+	out = append(out, vals...)
+	return &VTuple{out}
+}
+
+func (fr *Frame) goStmt(i *ssa.Go) {
+	ex := fr.ex
+	c := ex.Conc
+	if len(c.Threads) >= 16 {
+		panic(unsupported("more than 16 goroutines"))
+	}
+	args := make([]Value, len(i.Call.Args))
+	for k, a := range i.Call.Args {
+		args[k] = fr.eval(a)
+	}
+	if i.Call.IsInvoke() {
+		panic(unsupported("go statement on an interface method"))
+	}
+	fv, ok := fr.eval(i.Call.Value).(*VFunc)
+	if !ok || len(fv.Alts) != 1 {
+		panic(unsupported("go statement on a non-constant function value"))
+	}
+	sp := ex.newEvent(fr, "spawn", false, i)
+	ex.advance(sp)
+	child := &CThread{ID: len(c.Threads), Parent: c.Cur, Spawn: sp, AllFired: ex.ts.True, Snapshot: map[*Object]bool{}, Name: fv.Alts[0].Fn.Name()}
+	for o := range fr.heap {
+		child.Snapshot[o] = true
+	}
+	c.Threads = append(c.Threads, child)
+	saved := c.Cur
+	c.Cur = child
+	a := fv.Alts[0]
+	if a.Recv != nil {
+		args = append([]Value{a.Recv}, args...)
+	}
+	// the child runs on a snapshot of the spawner's heap; its effects on shared cells are events
+	ex.callFunction(a.Fn, args, a.Bind, copyHeap(fr.heap), fr.pc, child.ID)
+	c.Cur = saved
+}
+
+func (ex *Exec) chanLen(fr *Frame, c *VChan) Value { panic(unsupported("len(chan)")) }
+func (ex *Exec) chanCap(fr *Frame, c *VChan) Value {
+	return &VBV{ex.chanCapTerm(fr, c)}
+}
+
+func (ex *Exec) chanClose(fr *Frame, ch *VChan, in ssa.Instruction) {
+	if ex.Conc == nil {
+		panic(unsupported("close(chan) outside mode C"))
+	}
+	e := ex.newEvent(fr, "close", false, in)
+	e.Ch = ch
+	ex.advance(e)
+}
+
+func cellKey(o *Object, path []int) string { return fmt.Sprintf("%d%v", o.ID, path) }
+
+func (ex *Exec) wgKey(v Value) string {
+	p, ok := v.(*VPtr)
+	if !ok || len(p.Alts) != 1 {
+		panic(unsupported("WaitGroup reached through a symbolic pointer"))
+	}
+	return cellKey(p.Alts[0].Obj, p.Alts[0].Path)
+}
+
 func (ex *Exec) concIntrinsic(fr *Frame, fn *ssa.Function, args []Value, pc *Term, in ssa.Instruction) (Value, bool) {
+	ts := ex.ts
+	switch fn.String() {
+	case "(*sync.WaitGroup).Add":
+		e := ex.newEvent(fr, "wgadd", false, in)
+		e.WG = ex.wgKey(args[0])
+		e.N = ts.Extract(args[1].(*VBV).T, tsW-1, 0)
+		ex.advance(e)
+		return nil, true
+	case "(*sync.WaitGroup).Done":
+		e := ex.newEvent(fr, "wgdone", false, in)
+		e.WG = ex.wgKey(args[0])
+		ex.advance(e)
+		return nil, true
+	case "(*sync.WaitGroup).Wait":
+		e := ex.newEvent(fr, "wgwait", true, in)
+		e.WG = ex.wgKey(args[0])
+		ex.advance(e)
+		return nil, true
+	}
 	return nil, false
+}
+
+// concStore / concLoad: accesses to memory that is shared between goroutines.
+func (ex *Exec) concStore(fr *Frame, a PtrAlt, g *Term, val Value, in ssa.Instruction) {
+	c := ex.Conc
+	if c == nil || c.Cur.Snapshot == nil || !c.Cur.Snapshot[a.Obj] {
+		return
+	}
+	e := ex.newEvent(fr, "store", false, in)
+	e.G = ex.ts.And(fr.pc, g)
+	e.Cell = cellKey(a.Obj, a.Path)
+	e.Val = val
+	ex.advance(e)
+	c.Stores[e.Cell] = append(c.Stores[e.Cell], e)
+}
+
+func (ex *Exec) concLoad(fr *Frame, a PtrAlt, own Value, in ssa.Instruction) Value {
+	c := ex.Conc
+	if c == nil {
+		return own
+	}
+	ws := c.Stores[cellKey(a.Obj, a.Path)]
+	var foreign []*CEvent
+	for _, w := range ws {
+		if w.Th != c.Cur && !isAncestor(w.Th, c.Cur) {
+			foreign = append(foreign, w)
+		}
+	}
+	if len(foreign) == 0 {
+		return own
+	}
+	ts := ex.ts
+	l := ex.newEvent(fr, "load", false, in)
+	l.G = ex.ts.And(fr.pc, a.G)
+	l.Cell = cellKey(a.Obj, a.Path)
+	ex.advance(l)
+	c.Stores[l.Cell] = append(c.Stores[l.Cell], l)
+	// the latest foreign store before the load wins, otherwise the thread's own view
+	v := own
+	for _, w := range foreign {
+		later := ts.True
+		for _, w2 := range foreign {
+			if w2 != w {
+				later = ts.And(later, ts.Not(ts.And(w2.F, ts.Ult(w.T, w2.T), ts.Ult(w2.T, l.T))))
+			}
+		}
+		v = ex.merge(ts.And(w.F, ts.Ult(w.T, l.T), later), w.Val, v)
+	}
+	return v
+}
+
+func isAncestor(a, b *CThread) bool {
+	for t := b.Parent; t != nil; t = t.Parent {
+		if t == a {
+			return true
+		}
+	}
+	return false
+}
+
+// finalizeConc emits the schedule constraints and the deadlock / race / panic obligations.
+func (ex *Exec) finalizeConc() {
+	c := ex.Conc
+	if c == nil || c.Final {
+		return
+	}
+	c.Final = true
+	ts := ex.ts
+	add := func(t *Term) { ex.Assumes = append(ex.Assumes, t) }
+	lt := func(a, b *CEvent) *Term { return ts.Ult(a.T, b.T) }
+	one8 := ts.BV(1, tsW)
+	zero8 := ts.BV(0, tsW)
+	count := func(conds []*Term) *Term {
+		n := zero8
+		for _, cnd := range conds {
+			n = ts.Add(n, ts.Ite(cnd, one8, zero8))
+		}
+		return n
+	}
+	evs := c.Events
+	var sends, recvs, closes []*CEvent
+	for _, e := range evs {
+		switch e.Kind {
+		case "send":
+			sends = append(sends, e)
+		case "recv":
+			recvs = append(recvs, e)
+		case "close":
+			closes = append(closes, e)
+		}
+	}
+	reached := func(e *CEvent) *Term { return ts.And(e.G, e.Prev) }
+	for _, e := range evs {
+		// fired only if reached; non-blocking events fire when reached
+		add(ts.Implies(e.F, reached(e)))
+		if !e.Blocking {
+			add(ts.Implies(reached(e), e.F))
+		}
+		add(ts.Ult(e.T, ts.BV(250, tsW)))
+		// spawn order
+		if e.Th.Spawn != nil {
+			add(ts.Implies(e.F, ts.And(e.Th.Spawn.F, lt(e.Th.Spawn, e))))
+		}
+	}
+	// program order and uniqueness of timestamps
+	for i, a := range evs {
+		for _, b := range evs[i+1:] {
+			both := ts.And(a.F, b.F)
+			if a.Th == b.Th {
+				if a.Sel != 0 && a.Sel == b.Sel {
+					add(ts.Not(both)) // at most one case of a select
+					continue
+				}
+				add(ts.Implies(both, lt(a, b)))
+				continue
+			}
+			rendezvous := ts.False
+			if a.Kind == "send" && b.Kind == "recv" {
+				if m, ok := b.M[a]; ok {
+					rendezvous = m
+				}
+			}
+			if b.Kind == "send" && a.Kind == "recv" {
+				if m, ok := a.M[b]; ok {
+					rendezvous = m
+				}
+			}
+			add(ts.Implies(both, ts.Or(ts.Not(ts.Eq(a.T, b.T)), rendezvous)))
+		}
+	}
+	capOf := map[*CEvent]*Term{}
+	for _, e := range evs {
+		if e.Ch != nil {
+			cp := ts.BV(0, 64)
+			for k := len(e.Ch.Alts) - 1; k >= 0; k-- {
+				// capacity is stored at creation; read it from any heap that has the object: it never changes
+				cp = ts.Ite(e.Ch.Alts[k].G, ex.chanCaps[e.Ch.Alts[k].Obj], cp)
+			}
+			capOf[e] = cp
+			add(ts.Implies(e.F, ex.chanNonNil(e.Ch))) // operations on a nil channel never complete
+		}
+	}
+	matchedS := map[*CEvent][]*Term{}
+	for _, r := range recvs {
+		var ms []*Term
+		for s, m := range r.M {
+			same := ex.sameChan(s.Ch, r.Ch)
+			unbuf := ts.Eq(capOf[s], ts.BV(0, 64))
+			add(ts.Implies(m, ts.And(s.F, r.F, same, ts.Ite(unbuf, ts.Eq(s.T, r.T), lt(s, r)))))
+			ms = append(ms, m)
+			matchedS[s] = append(matchedS[s], m)
+		}
+		// a receive completes by taking a value or because the channel is closed and drained, never both
+		alts := append(append([]*Term{}, ms...), r.CR)
+		add(ts.Eq(r.F, ts.Or(alts...)))
+		for i := range alts {
+			for j := i + 1; j < len(alts); j++ {
+				add(ts.Not(ts.And(alts[i], alts[j])))
+			}
+		}
+		// closed and drained: some close fired earlier and every fired send on the channel was received earlier
+		var closedBefore []*Term
+		for _, k := range closes {
+			closedBefore = append(closedBefore, ts.And(k.F, lt(k, r), ex.sameChan(k.Ch, r.Ch)))
+		}
+		drained := ts.True
+		for _, s := range sends {
+			same := ex.sameChan(s.Ch, r.Ch)
+			if same.IsFalse() {
+				continue
+			}
+			var got []*Term
+			for _, r2 := range recvs {
+				if m, ok := r2.M[s]; ok && r2 != r {
+					got = append(got, ts.And(m, lt(r2, r)))
+				}
+			}
+			drained = ts.And(drained, ts.Implies(ts.And(s.F, same), ts.Or(got...)))
+		}
+		add(ts.Implies(r.CR, ts.And(ts.Or(closedBefore...), drained)))
+	}
+	for _, s := range sends {
+		ms := matchedS[s]
+		for i := range ms {
+			for j := i + 1; j < len(ms); j++ {
+				add(ts.Not(ts.And(ms[i], ms[j])))
+			}
+		}
+		unbuf := ts.Eq(capOf[s], ts.BV(0, 64))
+		add(ts.Implies(ts.And(s.F, unbuf), ts.Or(ms...)))
+		// buffered: room in the buffer when the send completes
+		var before, taken []*Term
+		for _, s2 := range sends {
+			if s2 != s {
+				before = append(before, ts.And(s2.F, lt(s2, s), ex.sameChan(s2.Ch, s.Ch)))
+			}
+		}
+		for _, r := range recvs {
+			if same := ex.sameChan(r.Ch, s.Ch); !same.IsFalse() {
+				taken = append(taken, ts.And(r.F, ts.Not(r.CR), lt(r, s), same))
+			}
+		}
+		occ := ts.Sub(count(before), count(taken))
+		add(ts.Implies(ts.And(s.F, ts.Not(unbuf)), ts.Ult(ts.Zext(occ, 64), capOf[s])))
+	}
+	// FIFO: matches on one channel preserve order, and a receive takes the oldest value
+	for _, r := range recvs {
+		for s, m := range r.M {
+			for _, r2 := range recvs {
+				if r2 == r {
+					continue
+				}
+				for s2, m2 := range r2.M {
+					if s2 == s {
+						continue
+					}
+					same := ex.sameChan(s.Ch, s2.Ch)
+					if same.IsFalse() {
+						continue
+					}
+					add(ts.Implies(ts.And(m, m2, same), ts.Eq(lt(s, s2), lt(r, r2))))
+				}
+			}
+			for _, s2 := range sends {
+				if s2 == s {
+					continue
+				}
+				same := ex.sameChan(s.Ch, s2.Ch)
+				if same.IsFalse() {
+					continue
+				}
+				// an older fired send on the same channel has been received before
+				var got []*Term
+				for _, r2 := range recvs {
+					if m2, ok := r2.M[s2]; ok {
+						got = append(got, ts.And(m2, lt(r2, r)))
+					}
+				}
+				add(ts.Implies(ts.And(m, s2.F, lt(s2, s), same), ts.Or(got...)))
+			}
+		}
+	}
+	// WaitGroup
+	wgs := map[string][]*CEvent{}
+	for _, e := range evs {
+		if e.WG != "" {
+			wgs[e.WG] = append(wgs[e.WG], e)
+		}
+	}
+	counterBefore := func(key string, at *CEvent, inclusive bool) *Term {
+		n := zero8
+		for _, e := range wgs[key] {
+			if e == at && !inclusive {
+				continue
+			}
+			b := ts.And(e.F, ts.Or(lt(e, at), ts.Bool(e == at)))
+			switch e.Kind {
+			case "wgadd":
+				n = ts.Add(n, ts.Ite(b, e.N, zero8))
+			case "wgdone":
+				n = ts.Sub(n, ts.Ite(b, one8, zero8))
+			}
+		}
+		return n
+	}
+	for key, es := range wgs {
+		for _, e := range es {
+			switch e.Kind {
+			case "wgwait":
+				add(ts.Implies(e.F, ts.Eq(counterBefore(key, e, false), zero8)))
+			case "wgdone", "wgadd":
+				neg := ts.Slt(counterBefore(key, e, true), zero8)
+				c.Panics = append(c.Panics, Obligation{Kind: "panic", Cond: ts.And(e.F, neg), Label: "sync: negative WaitGroup counter", Pos: e.Pos})
+			}
+		}
+	}
+	// panics of the channel model
+	for _, k := range closes {
+		for _, k2 := range closes {
+			if k2 != k {
+				c.Panics = append(c.Panics, Obligation{Kind: "panic", Cond: ts.And(k.F, k2.F, lt(k2, k), ex.sameChan(k.Ch, k2.Ch)), Label: "close of closed channel", Pos: k.Pos})
+			}
+		}
+		c.Panics = append(c.Panics, Obligation{Kind: "panic", Cond: ts.And(k.F, ts.Not(ex.chanNonNil(k.Ch))), Label: "close of nil channel", Pos: k.Pos})
+		for _, s := range sends {
+			same := ex.sameChan(s.Ch, k.Ch)
+			if same.IsFalse() {
+				continue
+			}
+			// a send that is attempted (reached) on a channel closed before it completes, or while it blocks, panics
+			c.Panics = append(c.Panics, Obligation{Kind: "panic", Cond: ts.And(reached(s), k.F, same, ts.Or(ts.Not(s.F), lt(k, s))), Label: "send on closed channel", Pos: s.Pos})
+		}
+	}
+	// ---- maximality and deadlock / leak ----
+	blocked := func(e *CEvent) *Term {
+		if e.Sel != 0 {
+			grpFired := ts.False
+			for _, o := range evs {
+				if o.Sel == e.Sel {
+					grpFired = ts.Or(grpFired, o.F)
+				}
+			}
+			return ts.And(reached(e), ts.Not(grpFired))
+		}
+		return ts.And(reached(e), ts.Not(e.F))
+	}
+	finalOcc := func(ch *VChan) *Term {
+		var snd, rcv []*Term
+		for _, s := range sends {
+			snd = append(snd, ts.And(s.F, ex.sameChan(s.Ch, ch)))
+		}
+		for _, r := range recvs {
+			rcv = append(rcv, ts.And(r.F, ts.Not(r.CR), ex.sameChan(r.Ch, ch)))
+		}
+		return ts.Sub(count(snd), count(rcv))
+	}
+	closedFinally := func(ch *VChan) *Term {
+		var cs []*Term
+		for _, k := range closes {
+			cs = append(cs, ts.And(k.F, ex.sameChan(k.Ch, ch)))
+		}
+		return ts.Or(cs...)
+	}
+	maximal := ts.True
+	var someBlocked []*Term
+	for _, e := range evs {
+		if !e.Blocking {
+			continue
+		}
+		b := blocked(e)
+		someBlocked = append(someBlocked, b)
+		switch e.Kind {
+		case "send":
+			// a blocked sender: no blocked receiver to meet (unbuffered) / buffer full (buffered)
+			for _, r := range recvs {
+				if same := ex.sameChan(r.Ch, e.Ch); !same.IsFalse() && r.Th != e.Th {
+					maximal = ts.And(maximal, ts.Not(ts.And(b, blocked(r), same)))
+				}
+			}
+			unbuf := ts.Eq(capOf[e], ts.BV(0, 64))
+			maximal = ts.And(maximal, ts.Implies(ts.And(b, ts.Not(unbuf), ex.chanNonNil(e.Ch)), ts.Eq(ts.Zext(finalOcc(e.Ch), 64), capOf[e])))
+		case "recv":
+			// a blocked receiver: nothing buffered and not closed
+			maximal = ts.And(maximal, ts.Implies(ts.And(b, ex.chanNonNil(e.Ch)), ts.And(ts.Eq(finalOcc(e.Ch), zero8), ts.Not(closedFinally(e.Ch)))))
+		case "wgwait":
+			final := zero8
+			for _, w := range wgs[e.WG] {
+				switch w.Kind {
+				case "wgadd":
+					final = ts.Add(final, ts.Ite(w.F, w.N, zero8))
+				case "wgdone":
+					final = ts.Sub(final, ts.Ite(w.F, one8, zero8))
+				}
+			}
+			maximal = ts.And(maximal, ts.Implies(b, ts.Not(ts.Eq(final, zero8))))
+		}
+	}
+	c.Deadlock = ts.And(maximal, ts.Or(someBlocked...))
+	// ---- data races: two conflicting accesses of different goroutines adjacent in some execution ----
+	var races []*Term
+	for _, accs := range c.Stores {
+		for i, a := range accs {
+			for _, b := range accs[i+1:] {
+				if a.Th == b.Th || (a.Kind == "load" && b.Kind == "load") {
+					continue
+				}
+				adj := ts.Or(ts.Eq(ts.Add(a.T, one8), b.T), ts.Eq(ts.Add(b.T, one8), a.T))
+				races = append(races, ts.And(a.F, b.F, adj))
+			}
+		}
+	}
+	c.Race = ts.Or(races...)
 }
